@@ -58,6 +58,12 @@ def _task_factory(loop, coro, **kw):
     return VTask(coro, loop=loop, **kw)
 
 
+def _norm(x):
+    if isinstance(x, (list, tuple)):
+        return [_norm(y) for y in x]
+    return x
+
+
 class Chooser:
     """replays a prefix of choices, then takes the cost-0 option"""
 
@@ -74,7 +80,7 @@ class Chooser:
             if isinstance(c, (list, tuple)):
                 # replay file form: [choice, signature]
                 c, want = c
-                if list(want) != list(sig):
+                if _norm(want) != _norm(sig):
                     raise ReplayDivergence(
                         "choice point %d: signature %r != recorded %r"
                         % (i, sig, want))
